@@ -3399,3 +3399,32 @@ twin('C04', 'data-find-returns-on-equal', FSPY, 'FileStorage._data_find',
      '''            if _data == data:
                 return data_pos
             return 0''')
+# ---- round 13
+breaker('C09', 'index-kept-when-saved-at-the-bound', 'C09.R14', FSPY,
+        'FileStorage.__init__',
+        'if r is not None and r[2] >= stop:',
+        'if r is not None and r[2] > stop:')
+twin('C09', 'index-bound-test-negated', FSPY, 'FileStorage.__init__',
+     'if r is not None and r[2] >= stop:',
+     'if r is not None and not r[2] < stop:')
+twin('C09', 'index-bound-test-sides-swapped', FSPY, 'FileStorage.__init__',
+     'if r is not None and r[2] >= stop:',
+     'if r is not None and stop <= r[2]:')
+breaker('C13', 'sweep-sets-the-file-at-the-cutoff-aside', 'C13.R24', BLOBPY,
+        'BlobStorage._blob_sweep_files',
+        'if serial is not None and serial > cutoff:',
+        'if serial is not None and serial >= cutoff:')
+twin('C13', 'sweep-cutoff-test-sides-swapped', BLOBPY,
+     'BlobStorage._blob_sweep_files',
+     'if serial is not None and serial > cutoff:',
+     'if serial is not None and cutoff < serial:')
+breaker('C10', 'refusal-remembered-as-unresolvable', 'C10.R9', CRPY,
+        'tryToResolveConflict',
+        '''        logger.debug(
+            "Conflict resolution on %s failed with %s: %s",
+            klass, e.__class__.__name__, str(e))
+''', '''        logger.debug(
+            "Conflict resolution on %s failed with %s: %s",
+            klass, e.__class__.__name__, str(e))
+        _unresolvable[klass] = 1
+''')
